@@ -286,6 +286,19 @@ def discharge(eng, o, usize_bits=64):
     # INV-UNIFORM
     if kind == "lt" and _inv_uniform(eng, o, g[1], g[2]):
         return True
+    # INV-COUNT: a vector that starts empty and receives exactly one push per iteration of a counted loop lo..hi has
+    # hi - lo elements once the loop has run to completion
+    if kind in ("lt", "range", "le"):
+        eqs = _inv_count(eng, o, [x for x in g[1:] if is_t(x)])
+        if eqs:
+            L4 = make_ctx(eng, facts, usize_bits)
+            for (lv, n) in eqs:
+                L4.eqs.append(L4.lin(lv).add(L4.lin(n), -1))
+            goals4 = _goals_for(L4, g, usize_bits)
+            if goals4 is not None and all(lin.entails(L4, gl) for gl in goals4):
+                o.status = True
+                o.why = "INV-COUNT: the indexed vector is filled by one unconditional push per iteration of a counted loop that runs to completion"
+                return True
     # INV-PAIRED: |vector| >= |set| when every successful set insertion is followed by a push (same loop, both empty before)
     if kind in ("range", "ovf", "lt", "le"):
         extra = _inv_paired(eng, facts, [x for x in g[1:] if is_t(x)])
@@ -577,3 +590,69 @@ def _paired(eng, V, K):
     if head in reach:
         return False
     return True
+
+
+def _inv_count(eng, o, terms):
+    out = []
+    for t in terms:
+        for ln in Q.find_all(t, lambda x: x.op == "len" and x.args[0].op == "phi"):
+            V = ln.args[0]
+            site = Q.phi_site(eng, V.args[0])
+            if site is None:
+                continue
+            fkey, head = site
+            fr = eng.frames.get(fkey)
+            if fr is None or head not in fr.cfg.loop_heads():
+                continue
+            cfg = fr.cfg
+            inc = PHI.get(V.args[0]) or {}
+            ent = [v for p, v in inc.items() if not (isinstance(p, int) and cfg.dominates(head, p))]
+            if len(ent) != 1 or ent[0].op != "vec_new":
+                continue
+            loc = V.args[0][2]
+            # the loop is driven by Iterator::next on a counted range, evaluated in the loop head region
+            nxt = [e for e in eng.events.values() if e["kind"] == "call" and e["frame"] == fkey and (e.get("dname") or "").endswith("Iterator::next")
+                   and cfg.dominates(head, e["block"]) and head in cfg.reachable_from(e["block"])]
+            if len(nxt) != 1 or nxt[0]["result"] is None:
+                continue
+            some = Q.variant(nxt[0]["result"], 1)
+            if not some or not some[2] or some[2][0].op != "range_elem":
+                continue
+            lo, hi = some[2][0].args[0], some[2][0].args[1]
+            # body = blocks on the Some edge; every path from the Some successor back to the head passes the single push,
+            # nothing else mutates the vector, and the loop has no exit other than the None edge of next()
+            from .models import _is_mut_arg
+            muts = []
+            for e in eng.events.values():
+                if e["kind"] != "call" or e["frame"] != fkey:
+                    continue
+                for i, a in enumerate(e["args"]):
+                    if a.op == "ref" and a.args[0] == loc and _is_mut_arg({"term": fr.fn.blocks[e["block"]]["t"], "frame": fr}, i):
+                        muts.append(e)
+            if len(muts) != 1 or not (muts[0].get("callee") or "").endswith("::push"):
+                continue
+            push = muts[0]
+            sw = eng.switch_terms.get((fkey, nxt[0]["block"] if False else None))
+            # find the switch on the discriminant of next()'s result
+            some_succ = none_succ = None
+            for b in cfg.rpo:
+                st_ = eng.switch_terms.get((fkey, b))
+                if st_ is not None and st_[0].op == "discr" and st_[0].args[0] is nxt[0]["result"]:
+                    for v, tb in st_[1]:
+                        if int(v) == 1:
+                            some_succ = tb
+                        if int(v) == 0:
+                            none_succ = tb
+            if some_succ is None or none_succ is None:
+                continue
+            if head in cfg.reachable_from(some_succ, avoid=(push["block"],)):
+                continue          # a path around the push
+            body = {b for b in cfg.reachable_from(some_succ) if head in cfg.reachable_from(b)}
+            exits = [b for b in body for s_ in cfg.succ[b] if s_ not in body and s_ != head and s_ != none_succ]
+            returns_in_body = [b for b in cfg.reachable_from(some_succ, avoid=(head,)) if "return" in fr.fn.blocks[b]["t"]]
+            if exits or returns_in_body:
+                continue          # break / early return: the count is only an upper bound
+            # the use must be after the loop (not dominated by the Some edge)
+            n = mk("sub", hi, lo, "usize") if not (lo.op == "int" and lo.args[0] == 0) else hi
+            out.append((ln, n))
+    return out
